@@ -1,5 +1,7 @@
 import Pyunicorn.Lemmas.NetBetwFwd
 import Pyunicorn.Lemmas.NetBetwFwdOK
+import Pyunicorn.Lemmas.NetBetwBack
+import Pyunicorn.Lemmas.NetBetwAlg
 /-!
 Round 5: assembly of the kernel proof of `_nsi_betweenness`.
 -/
@@ -14,5 +16,54 @@ theorem forward_fwdOK (n : Nat) (a : Adj) (hsym : ∀ x y, a x y = a y x) (w : N
       (forward (offsetsOf (degArr n a)) (degArr n a) (flatArr n a) w n 0
         (fwdInit n w (flatArr n a).length j)) :=
   (forward_wrapper_fwdFinal n a hsym w j hj).fwdOK hj
+
+/-! ### two facts about the BFS distance used by the algebra -/
+
+theorem dist_zero_eq (n : Nat) (a : Adj) (j l : Nat) (hj : j < n) (hl : l < n)
+    (h : dist n a j l = some 0) : l = j := by
+  obtain ⟨hw, _⟩ := (DistL.dist_some_iff n a j l 0 hj hl).mp h
+  cases hw
+  rfl
+
+theorem dist_succ_pred (n : Nat) (a : Adj) (j l k : Nat) (hj : j < n) (hl : l < n)
+    (h : dist n a j l = some (k + 1)) : ∃ i, i < n ∧ a i l = true ∧ dist n a j i = some k := by
+  obtain ⟨hw, hmin⟩ := (DistL.dist_some_iff n a j l (k + 1) hj hl).mp h
+  cases hw with
+  | snoc hw' hx hax =>
+    rename_i x
+    refine ⟨x, hx, hax, ?_⟩
+    rw [DistL.dist_some_iff n a j x k hj hx]
+    refine ⟨hw', ?_⟩
+    intro m hm hwm
+    exact hmin (m + 1) (by omega) (Walk.snoc hwm hx hax)
+
+/-- **one iteration of `for j in targets`**: forward phase, backward sweep and the difference
+`betweenness_to_j − excess_to_j` give the definition's inner sum over the sources, for every undirected
+network, positive node weights, every source mask and every target `j < N` -/
+theorem sweepDiff_eq_contribDef (n : Nat) (a : Adj) (hsym : ∀ x y, a x y = a y x) (w : Nat → Rat)
+    (hw : ∀ v, v < n → 0 < w v) (isSrc : List Bool) (j : Nat) (hj : j < n) (l : Nat) (hl : l < n) :
+    sweepDiff n a w isSrc j l = contribDef n a w (dist n a) isSrc j l := by
+  have hok := forward_fwdOK n a hsym w j hj
+  obtain ⟨hsol, hex⟩ := back_brandesSol n a w isSrc j hj _ _ hok
+  unfold sweepDiff
+  simp only []
+  by_cases e : l = j
+  · subst e
+    have h1 := hsol.root
+    rw [h1, hex l hl, if_pos rfl]
+    simp [contribDef]
+  · rw [hex l hl, if_neg e]
+    exact brandesSol_eq_contribDef n a w isSrc j hj hw (DistL.dist_self n a j hj)
+      (fun l hl h => dist_zero_eq n a j l hj hl h)
+      (fun l k hl h => dist_succ_pred n a j l k hj hl h)
+      (fun l k hl h => DistL.dist_lt n a j l k hj hl h) _ hsol l hl e
+
+/-- **kernel `_nsi_betweenness` = pair-dependency definition**, unconditionally -/
+theorem nsiBetweenness_eq_def_full (n : Nat) (a : Adj) (hsym : ∀ x y, a x y = a y x) (w : Nat → Rat)
+    (hw : ∀ v, v < n → 0 < w v) (isSrc : List Bool) (targets : List Nat)
+    (ht : ∀ j, j ∈ targets → j < n) :
+    nsiBetweenness n a w isSrc targets = nsiBetweennessDef n a w (dist n a) isSrc targets :=
+  nsiBetweenness_assembly n a w isSrc targets (dist n a)
+    (fun j hjt l hl => sweepDiff_eq_contribDef n a hsym w hw isSrc j (ht j hjt) l hl)
 
 end Pyunicorn.NetBetw
